@@ -265,7 +265,7 @@ PROPS["C18"] = {
 }
 
 RULES["C13"] = ("a directory tree in a scratch dir: 1..40 sample files (2*10^4 scale; 1..3 at 10^6; 1..4 short files for the 10^8 worker), suffix .bin/.dat, random safe base names (duplicates across sub-directories allowed), nesting depth 0..3, "
-                "0..5 non-sample files of other suffixes, sometimes a directory whose name ends in .bin/.dat; contents uniform/biased/markov/periodic/constant/sparse/run-list; -n in 1..64, GOMAXPROCS in {1,2,16}; in a third of the runs the -o path already holds an older report (1 byte .. 400 KB). The built rddetector binary is run "
+                "0..5 non-sample files of other suffixes, sometimes a directory whose name ends in .bin/.dat; contents uniform/biased/markov/periodic/constant/sparse/run-list; -n in 1..64, GOMAXPROCS in {1,2,16}; the input directory is given as an absolute path, as 'in', './in', '../<dir>/in', with a trailing slash, or is a directory whose name starts with a dot; in a third of the runs the -o path already holds an older report (1 byte .. 400 KB). The built rddetector binary is run "
                 "end to end at the 2*10^4 and 10^6 scales; worker_1E8 is driven directly through a go test -overlay shim on 100000..200000-bit files; main's scale switch for 10^8 is observed on sparse 12.5 MB files (header line read, process killed). "
                 "Some shards pin 'one worker, >= 2-3 files' (a worker then handles consecutive files) and some run a -race build of the binary / shim (a race report is a violation). oracle: exit status 0 within the budget (a stuck child gets SIGQUIT: all goroutines blocked = violation, merely slow = inconclusive); report = the scale's header + exactly one row per sample file (multiset on base names, rows of equal name matched by values); "
                 "every cell equals, to 6 decimals (+-1 unit), the library's P/Q value for the test, parameter and component that the header column names. non-trivial: >= 2 files and a worker count different from the file count. distinct: hash of the case JSON.")
